@@ -11,6 +11,7 @@ import Driver.C37
 import Driver.C12
 import Driver.C14
 import Driver.C15
+import Driver.C18
 open Mitum Mitum.Driver
 
 def step (line : String) : String :=
@@ -22,6 +23,7 @@ def step (line : String) : String :=
   | "C12" :: ts => stepC12 ts
   | "C14" :: ts => stepC14 ts
   | "C15" :: ts => stepC15 ts
+  | "C18" :: ts => stepC18 ts
   | "C22" :: ts => stepC22 ts
   | "C23" :: ts => stepC23 ts
   | "C24" :: ts => stepC24 ts
